@@ -408,6 +408,7 @@ func (s *Syncer) addPeer(p *Peer) error {
 			}
 		}
 		if in >= s.config.MaxInboundPeers {
+			verifEvent("s.addpeer.rej", s.verifID(), verifDir(in, true))
 			return errors.New("too many inbound peers")
 		}
 	}
